@@ -5,8 +5,11 @@ package dag
 // C15: concurrency never exceeds the configured bound; serial means one at a time.
 
 import (
+	"context"
 	"fmt"
 	"strings"
+
+	"github.com/DavidGamba/go-getoptions"
 )
 
 // Four mutually independent tasks contend for 1-3 slots (or serial mode);
@@ -83,3 +86,45 @@ func VerifC15_BufferedOutput() {
 	vReach("ran")
 }
 
+// A Task shared by two graphs that run concurrently never executes twice at
+// the same time (either graph may be serial).
+func VerifC15_SharedTask() {
+	vNativeReset()
+	serialA := vBool("serialA")
+	serialB := vBool("serialB")
+	inside, maxInside, runs := 0, 0, 0
+	shared := NewTask("shared", func(ctx context.Context, opt *getoptions.GetOpt, args []string) error {
+		inside++
+		runs++
+		if inside > maxInside {
+			maxInside = inside
+		}
+		vYield(runs)
+		inside--
+		return nil
+	})
+	other := NewTask("other", func(ctx context.Context, opt *getoptions.GetOpt, args []string) error {
+		vYield(10)
+		return nil
+	})
+	ga, gb := NewGraph("a"), NewGraph("b")
+	ga.AddTask(shared)
+	gb.AddTask(shared)
+	gb.AddTask(other)
+	if serialA {
+		ga.SetSerial()
+	}
+	if serialB {
+		gb.SetSerial()
+	}
+	vPhase("run")
+	errs := make(chan error)
+	go func() { errs <- ga.Run(vNewContext(), nil, nil) }()
+	go func() { errs <- gb.Run(vNewContext(), nil, nil) }()
+	e1 := <-errs
+	e2 := <-errs
+	vAssert("both-runs-succeed", e1 == nil && e2 == nil)
+	vAssert("shared-task-ran-in-both-graphs", runs == 2)
+	vAssert("shared-task-never-overlaps-itself", maxInside <= 1)
+	vReach("ran")
+}
